@@ -4,6 +4,7 @@ import (
 	"reflect"
 	"sort"
 	"sync"
+	"time"
 	"unsafe"
 )
 
@@ -73,6 +74,34 @@ func OnceDo(site string, o *sync.Once, f func()) {
 }
 
 // RandRead replaces crypto/rand.Read: bytes from the choice stream.
+// TimeNow, TimeSince and TimeUntil replace time.Now / Since / Until in instrumented code: reading
+// the clock is a scheduling point, so under stall injection simulated time may pass between two
+// clock reads of one operation (a preemption between two instructions).
+//
+//go:norace
+func TimeNow() time.Time {
+	if self() != nil {
+		Yield("clock")
+	}
+	return time.Now()
+}
+
+//go:norace
+func TimeSince(t time.Time) time.Duration {
+	if self() != nil {
+		Yield("clock")
+	}
+	return time.Since(t)
+}
+
+//go:norace
+func TimeUntil(t time.Time) time.Duration {
+	if self() != nil {
+		Yield("clock")
+	}
+	return time.Until(t)
+}
+
 func RandRead(b []byte) (int, error) {
 	EnsureReleased("rand")
 	for i := range b {
